@@ -112,6 +112,27 @@ CHECKS = {
         note="an unsized read() cannot be detectably short and a one-byte read answered with nothing is end-of-stream, so lenient "
              "readers may return; faults are injected on the outermost stream only (inner regions are BytesIO objects of the library)",
         design="§2.5, §3 C06"),
+    "C08": dict(
+        technique="bounded-exhaustive enumeration of delimiter nestings x observers x start offsets x payloads, differential against the reference interpreter's absolute-offset region model",
+        text="Every nesting (depth <=2 quick, <=3 thorough) of 18 region delimiters (Prefixed with and without includelength, FixedSized, "
+             "NullTerminated in 7 include/consume/require/terminator variants, NullStripped with 1- and 2-byte pad, OffsettedEnd, "
+             "ProcessXor) around 8 inner observers (Tell before/after a greedy, fixed or empty member, RawCopy, end-relative and "
+             "absolute Pointer) followed by a sentinel Tell is parsed with parse_stream from start offsets 0, 1 and 3 over every "
+             "payload string of the alphabet up to length L. The parsed value (inner greedy bytes, every Tell, RawCopy data and offsets), "
+             "the sentinel and the outer stream position must equal the reference's, or both must reject.",
+        note="trusts the region model of mc/ref.py (RS: data + absolute base offset); bit-level regions excluded by documentation",
+        design="§3 C08"),
+    "C18": dict(
+        technique="bounded-exhaustive enumeration of nested named shapes x every truncation offset / byte replacement / unbuildable member / unsizable member, path oracle from the reference interpreter's read-event path",
+        text="Every nested named shape of depth <=3 (quick) / <=4 (thorough) over Struct, Sequence, Array, Prefixed, FixedSized, Padded, "
+             "IfThenElse, Switch and Renamed with 11 kinds of named leaves is parsed from every strict prefix and every single-byte "
+             "replacement of its canonical encodings, built with every leaf value in turn replaced by each of 9 unbuildable values, and "
+             "sized with every member in turn replaced by each of 8 unsized or key-missing constructs. Whenever library and reference "
+             "reject with the same error class, ConstructError.path must equal the operation prefix plus the chain of named members "
+             "enclosing the failing read or field.",
+        note="a region delimiter reads its whole region itself, so truncation inside a Prefixed/FixedSized payload is attributed to the "
+             "delimiter's member; array indices are not part of the documented path format; PrefixedArray's internal names are not claimed",
+        design="§3 C18"),
 }
 
 PENDING_REASON = "check not built yet in this round (see DESIGN.md §7 build order); it will be decided by the same bounded-exhaustive engine"
